@@ -7,6 +7,7 @@ package main
 
 import (
 	"fmt"
+	"net/netip"
 	"reflect"
 	"strings"
 
@@ -239,11 +240,91 @@ func randPort(r *R, scheme string) string {
 // genPattern draws one origin pattern and reports whether it needs the
 // insecure-origins and public-suffix tolerations. Half of the draws come from
 // the collision vocabulary, the rest is random (labels, ports).
-func genPattern(r *R) (pat string, insecure, psl bool) {
+func genPattern(r *R) (pat string, insecure, psl bool) { return genPatternT(r, theme{}) }
+
+// theme: swarm-style bias of one configuration's origin list. The zero theme
+// is the ordinary mix; a themed configuration draws all its patterns from one
+// narrow corner, so that conjunctions the ordinary mix makes rare (three IPv6
+// literals in one tree, one host under seven ports and three schemes, a base
+// domain with its subdomain patterns at several depths) are common there.
+type theme struct {
+	kind int    // 0 none, 1 IP literals only, 2 one base domain, 3 one host many ports, 4 one host many schemes
+	base string // themes 2..4
+}
+
+func genTheme(r *R) theme {
+	if !r.P(0.15) {
+		return theme{}
+	}
+	t := theme{kind: r.Range(1, 4), base: pick(r, vocabWildBase)}
+	if r.P(0.4) {
+		t.base = randDomain(r)
+	}
+	return t
+}
+
+// randIPv6 draws an IPv6 literal in the canonical (RFC 5952) text form, with
+// long zero runs likely; never an IPv4-mapped one (prohibited).
+func randIPv6(r *R) string {
+	for {
+		var b [16]byte
+		for i := 0; i < 8; i++ {
+			if r.P(0.35) {
+				v := pick(r, []int{1, 1, 0xa, 0x21, 0x321, 0x4321, 0xdb8, 0x2001, 0xfe80, 0xffff, r.Intn(65536)})
+				b[2*i], b[2*i+1] = byte(v>>8), byte(v)
+			}
+		}
+		a := netip.AddrFrom16(b)
+		if a.Is4In6() || a.IsUnspecified() {
+			continue
+		}
+		return "[" + a.String() + "]"
+	}
+}
+
+func genPatternT(r *R, th theme) (pat string, insecure, psl bool) {
 	scheme := pick(r, vocabSchemes)
 	var host string
 	wild := false
-	switch x := r.Intn(14); {
+	x := r.Intn(14)
+	switch th.kind {
+	case 1:
+		x = 100
+		switch y := r.Intn(10); {
+		case y < 3:
+			host = pick(r, vocabIPs)
+		case y < 7:
+			host = randIPv6(r)
+		default:
+			host = fmt.Sprintf("%d.%d.%d.%d", r.Range(1, 223), r.Intn(256), r.Intn(256), r.Range(1, 254))
+		}
+	case 2:
+		x = 100
+		host = th.base
+		switch y := r.Intn(10); {
+		case y < 2:
+		case y < 4:
+			wild = true
+		case y < 6:
+			host = randLabel(r, 3) + "." + host
+		case y < 7:
+			host, wild = randLabel(r, 3)+"."+host, true
+		case y < 8:
+			host = pick(r, []string{"a", "b", "a.b", "b.a", "x"}) + "." + host
+		case y < 9:
+			host = strings.TrimSuffix(host, ".") + "."
+		default:
+			host = randLabel(r, 2) + host // same byte suffix, another domain
+		}
+	case 3, 4:
+		x = 100
+		host = th.base
+		if r.P(0.2) {
+			wild = true
+		}
+	}
+	switch {
+	case x == 100:
 	case x < 5:
 		host = pick(r, vocabDomains)
 	case x < 7:
@@ -263,7 +344,7 @@ func genPattern(r *R) (pat string, insecure, psl bool) {
 		scheme = "http" // https with an IP host is rejected (undocumented grey zone); stay clear of it
 	}
 	port := pick(r, vocabPorts)
-	if r.P(0.25) {
+	if r.P(0.25) || th.kind == 3 && r.P(0.6) {
 		port = randPort(r, scheme)
 	}
 	if scheme == "http" && port == ":80" || scheme == "https" && port == ":443" {
@@ -302,8 +383,12 @@ func genCfg(r *R) Cfg {
 		if r.P(0.12) {
 			n = r.Range(6, 18) // long lists (size-dependent code paths)
 		}
+		th := genTheme(r)
+		if th.kind != 0 {
+			n += r.Range(2, 5)
+		}
 		for i := 0; i < n; i++ {
-			p, insecure, psl := genPattern(r)
+			p, insecure, psl := genPatternT(r, th)
 			if insecure && restricted {
 				if r.P(0.5) {
 					c.TolInsecure = true
